@@ -392,11 +392,14 @@ impl<'c, 's, W: Write> Writer<'c, 's, W> {
 	/// Flush the final block (if a block was started) then return the
 	/// underlying writer.
 	pub fn into_inner(mut self) -> Result<W, SerError> {
-		self.finish_block()?;
-		Ok(self
+		let res = self.finish_block();
+		// Whether or not flushing succeeded, the error (if any) is reported here:
+		// `Drop` must not attempt to flush a second time (and possibly panic).
+		let writer = self
 			.writer
 			.take()
-			.expect("Only called by this function, which takes ownership"))
+			.expect("Only called by this function, which takes ownership");
+		res.map(|()| writer)
 	}
 
 	/// Flush the current block (if a block was started)
@@ -492,6 +495,10 @@ impl<'c, 's, W: Write> Writer<'c, 's, W> {
 
 impl<'c, 's, W: Write> Drop for Writer<'c, 's, W> {
 	fn drop(&mut self) {
+		if self.writer.is_none() {
+			// `into_inner` took over, and reported any flushing error itself
+			return;
+		}
 		let panicking = std::thread::panicking();
 		let res = match panicking {
 			false => self.finish_block(),
